@@ -71,10 +71,11 @@ def f2dot14ToFixed (a : Int) : Int := a * 4
 def f26FromI32 (i : Int) : Int := wrapI32 (i * 64)
 def f26ToI32 (a : Int) : Int := wrapI32 (a + 32) / 64
 
-/-- `impl Neg`: `-self.0` traps on `i32::MIN`. -/
-def neg (a : Int) : Option Int := if a = I32_MIN then none else some (-a)
-/-- `abs`: `self.0.abs()` traps on `i32::MIN`. -/
-def abs (a : Int) : Option Int := if a = I32_MIN then none else some (iabs a)
+/-- `impl Neg` (after `fix:` 7d0f778): `self.0.wrapping_neg()`; never traps, `-MIN = MIN`.
+Kept `Option`-valued so the driver protocol (`trap` vs value) is unchanged. -/
+def neg (a : Int) : Option Int := some (wrapI32 (-a))
+/-- `abs` (after `fix:` 7d0f778): `self.0.wrapping_abs()`; never traps, `|MIN| = MIN`. -/
+def abs (a : Int) : Option Int := some (wrapI32 (iabs a))
 
 /-- `Int24::new`: saturating constructor (branch-free arithmetic in Rust; same function). -/
 def int24New (raw : Int) : Int :=
